@@ -6,9 +6,9 @@ rows = []
 for d in sorted(glob.glob(os.path.join(HERE, 'seeded', '*'))):
     m = json.load(open(os.path.join(d, 'meta.json')))
     det = m.get('checks', {})
-    own = det.get(m['property'], {})
+    own = det.get(m.get('reclassified') or m['property'], {})
     sigs = '; '.join(s.replace('signature: ', '') for s in own.get('signatures', [])[:2])
-    rows.append('| %s | %s | %s | %s | %s | %s |' % (m['name'], m['property'], m.get('summary', '').replace('|', '/')[:230], m.get('needs', '').replace('|', '/')[:200],
+    rows.append('| %s | %s | %s | %s | %s | %s |' % (m['name'], m['property'] + (' (breaks %s, see text)' % m['reclassified'] if m.get('reclassified') else ''), m.get('summary', '').replace('|', '/')[:230], m.get('needs', '').replace('|', '/')[:200],
                                                  ', '.join(m.get('detected_by', [])) or '**missed**', sigs[:160].replace('|', '/')))
 print('| seed | property | change (40 tests still pass) | needs | caught by (quick) | first signatures |')
 print('|---|---|---|---|---|---|')
